@@ -116,7 +116,7 @@ def add_methods(cls, hg, prefix="hg_"):
     def Maximize(self, quantity):
         return self.histogrammar(hg_Maximize(quantity))
 
-    def Select(self, quantity, cut=hg_Count()):
+    def Select(self, quantity, cut=None):
         return self.histogrammar(hg_Select(quantity, cut))
 
     def SparselyBin(self, binWidth, quantity, value=hg_Count(), nanflow=hg_Count(), origin=0.0):
